@@ -691,7 +691,7 @@ run_race(void *argp)
 // so the thorough tier chooses each depth from the measured execution rate:
 // the largest depth in [dmin, dmax] whose letters^depth fits the scenario's
 // share of the tier budget.  Every started exploration runs to completion.
-static double g_rate = 500; // executions per second, re-measured continuously
+static double g_rate = 1000; // executions per second, re-measured continuously
 static double g_cap;        // wall seconds this tier may use in total
 static double g_t0left;
 static char   g_depths[400];
